@@ -123,21 +123,26 @@ def literal(ctx):
 
 
 # ---------------------------------------------------------------------------------------------- bounded
-def instance_with(pattern, g1, g3, rng, run, avoid):
-    """an instance of `pattern` whose groups 1 and 3 are the given texts"""
+def instance_with(pattern, g1, g3, rng, run, avoid, edge=(None, None)):
+    """an instance of `pattern` whose groups 1 and 3 are the given texts (edge: first / last letter of group 2)"""
     toks = gen.parse_structure(pattern)
     for _ in range(300):
         out, gno, depth = [], 0, 0
         pending = None
+        g2 = [None, None]
         for t in toks:
             if t[0] == "open":
                 gno += 1
                 depth += 1
                 if gno in (1, 3):
                     pending = list(g1 if gno == 1 else g3)
+                if gno == 2:
+                    g2[0] = sum(len(x_) for x_ in out)
             elif t[0] == "close":
                 depth -= 1
                 pending = None
+                if g2[0] is not None and g2[1] is None and gno == 2:
+                    g2[1] = sum(len(x_) for x_ in out)
             elif t[0] == "lit":
                 if pending is not None:
                     out.append(pending.pop(0))
@@ -146,6 +151,11 @@ def instance_with(pattern, g1, g3, rng, run, avoid):
             else:
                 out.append("".join(rng.choice(gen.IUPAC[t[1]]) for _ in range(run)))
         s = "".join(out)
+        if g2[0] is not None and g2[1] is not None and g2[1] - g2[0] >= 2:
+            if edge[0]:
+                s = s[:g2[0]] + edge[0] + s[g2[0] + 1:]
+            if edge[1]:
+                s = s[:g2[1] - 1] + edge[1] + s[g2[1]:]
         if all(gen.count_overlapping(s + s[:8], a) <= gen.count_literal(pattern, a) for a in avoid):
             return s
     return s
@@ -159,7 +169,7 @@ def sites_of(*classes):
     return tuple(dict.fromkeys(out))
 
 
-def run_triple(ns, kits, kit, vname, mname, nname, rng, chain_len, tlen, ids="distinct"):
+def run_triple(ns, kits, kit, vname, mname, nname, rng, chain_len, tlen, ids="distinct", scar=False):
     """ids: 'distinct' | 'assembly' (every module carries the library's default product id, as the products of an
     earlier level do when the caller did not name them) | 'unknown' (Biopython's default id)"""
     from Bio.Seq import Seq
@@ -184,13 +194,27 @@ def run_triple(ns, kits, kit, vname, mname, nname, rng, chain_len, tlen, ids="di
         cand_ = gen.rc(ovs[j_])
         if iupac_ok(ms["F3"], cand_) and cand_ not in ovs[:-1] and gen.rc(cand_) != cand_:
             ovs[-1] = cand_
+    # scar: the junction between the first two inserts spells the recognition site of the enzyme of THIS level (the overhang is
+    # the inner part of the site, the neighbouring target letters complete it): each module alone is clean, the product carries
+    # that site -- still none of the next level's beyond the two of the design
+    edges = [(None, None)] * chain_len
+    if scar and chain_len >= 2:
+        vsite = be.enzyme_geometry(V.cutter)[0]
+        word = rng.choice([vsite, gen.rc(vsite)])
+        inner = word[1:-1]
+        if len(inner) == k and iupac_ok(ms["F3"], inner) and iupac_ok(ms["F1"], inner) and inner not in (ovs[0], ovs[-1]) and gen.rc(inner) not in ovs:
+            ovs[1] = inner
+            edges[0] = (None, word[0])
+            edges[1] = (word[-1], None)
+        else:
+            return None
     vtext = instance_with(V.structure(), ovs[0], ovs[-1], rng, rng.randint(3, 8), avoid)
     # vector group 1 = downstream overhang = start of the chain ; group 3 = upstream overhang = end of the chain
     vec = V(CircularRecord(Seq(ba.rotate(vtext, rng.randrange(len(vtext))) + ""), id=dict(distinct="vec", assembly="vec").get(ids, "<unknown id>")))
     mods, targets = [], []
     for i in range(chain_len):
         for _ in range(100):
-            mt = instance_with(M.structure(), ovs[i], ovs[i + 1], rng, tlen, avoid)
+            mt = instance_with(M.structure(), ovs[i], ovs[i + 1], rng, tlen, avoid, edge=edges[i])
             ent = M(CircularRecord(Seq(ba.rotate(mt, rng.randrange(len(mt)))), id=dict(distinct="mod%d" % i, assembly="assembly").get(ids, "<unknown id>")))
             if ent.is_valid():
                 break
@@ -289,11 +313,11 @@ def bounded(ctx):
     for (kit, vname, mname, nname) in TRIPLES:
         for chain_len in ((1,) if mname == "YTKProduct" else (1, 2, 3)):
             for tlen in ((2, 5, 10) if ctx.tier == "quick" else (2, 3, 4, 6, 8, 10)):
-              for idmode in (("distinct",) if chain_len == 1 else ("distinct", "assembly", "unknown")):
+              for idmode in (("distinct",) if chain_len == 1 else ("distinct", "assembly", "unknown", "scar")):
                 evals += 1
                 label = "%s+%s->%s chain %d%s" % (vname, mname, nname, chain_len, "" if idmode == "distinct" else " ids " + idmode)
                 try:
-                    r = run_triple(ns, kits, kit, vname, mname, nname, rng, chain_len, tlen, idmode)
+                    r = run_triple(ns, kits, kit, vname, mname, nname, rng, chain_len, max(tlen, 3), "distinct" if idmode == "scar" else idmode, scar=(idmode == "scar"))
                 except Exception as ex:
                     viol.append(dict(name="setup_%s" % vname, what="%s: scenario could not be built: %r" % (label, ex), case={}))
                     continue
